@@ -120,6 +120,10 @@ func (x *Exec) callFunction(fr *Frame, callee *ssa.Function, args []Value, free 
 	// recursion / depth
 	for _, f := range x.stack {
 		if f == callee {
+			if con := x.Active[key]; con != nil {
+				x.UsedCon[key+" (schema, recursive call)"] = true
+				return x.applyContract(fr, callee, con, args, pos, bc, st, site)
+			}
 			x.havocAll(st, site+": recursive call to "+key+" without contract")
 			return x.freshResults(st, bc, callee.Signature)
 		}
